@@ -14,7 +14,7 @@ T = {
  "C02-m1": ("C02", "next_token: lexer-error text that Rust's trim() treats as white space is not queued as ERROR token", "a character that is white space for Unicode but not for GraphQL (NBSP, FF, VT, U+0085, U+2028, U+3000) outside strings/comments", "C02 space 'strings-unicode-space' (U+00A0, U+000C, U+2028 added to the lexical alphabet)"),
  "C02-m2": ("C02", "err_and_pop: the ERROR token push slipped inside `if accept_errors`, so unexpected tokens after a limit error are dropped", "recursion limit hit (small recursion_limit or > 500 levels) and a later unexpected token", "C02 spaces under recursion limits 0..=3 (token sequences, nesting family with trailing garbage, edits of nested documents)"),
  "C03-m1": ("C03", "lexer State::StringLiteralStart: line-terminator arm removed", "quoted string whose first character is a raw LF/CR and that has no later raw terminator", ""),
- "C03-m2": ("C03", "surrogate check of \\uXXXX rewritten as half-open range 0xD800..0xDFFF", "escape \\uDFFF exactly, no other surrogate escape in the string", ""),
+ "C03-m2": ("C03", "surrogate check of \\uXXXX rewritten as half-open range 0xD800..0xDFFF", "escape \\uDFFF exactly, no other surrogate escape in the string", "quick tier gains the escape space: `\"\\\\u` followed by every string ≤ 5 over the digits that spell the surrogate-block boundaries"),
  "C04-m1": ("C04", "compiler Parser::parse_common: reached figures take max with the previous value", "one Parser value used for two parses, the second shallower / shorter", "C04 history part (E-HIST: every sequence of <= 3|4 parse calls on one Parser value)"),
  "C04-m2": ("C04", "list_value: recursion counter incremented once per list instead of per item, so `[]` costs a level", "an empty list value as the deepest construct with the limit equal to the depth", ""),
  "C05-m1": ("C05", "variable_definition directives parsed with Constness::NotConst", "a variable reference inside a directive argument on a variable definition", ""),
@@ -88,12 +88,12 @@ T = {
  "C24-r2m2": ("C24", "__Directive.args ignores includeDeprecated and always drops deprecated arguments", "a directive definition with an argument marked @deprecated", ""),
  "C26-r2m1": ("C26", "Int result coercion uses a half-open range that excludes i32::MAX", "a resolver returning exactly 2147483647", ""),
  "C26-r2m2": ("C26", "collect_fields returns (instead of continuing) at an already visited fragment spread", "the same fragment reached twice in one selection set with more selections after the second spread", ""),
- "C17-r2m1": ("C17", "same_output_type_shape: `is_composite(a) || is_composite(b)` instead of `&&`", "same response name under two non-overlapping object type conditions, one a leaf and the other composite", ""),
+ "C17-r2m1": ("C17", "same_output_type_shape: `is_composite(a) || is_composite(b)` instead of `&&`", "same response name under two non-overlapping object type conditions, one a leaf and the other composite", "base pair b19 (a leaf and a composite field under disjoint type conditions, one alias apart) puts the case in the single-mutation space of the quick tier"),
  "C17-r2m2": ("C17", "is_variable_usage_allowed_at step 3.d checks assignability in the wrong direction", "nullable list variable with a default in a non-null list position whose item nullability differs", ""),
  "C14-r2m1": ("C14", "validate_implements_interfaces: the implemented name only has to be a defined type (contains_key) instead of an interface", "`implements` naming a defined object / union / scalar / enum / input type", ""),
  "C14-r2m2": ("C14", "is_valid_implementation_field_type: (List, NonNullList) alternative dropped", "interface field with a nullable list implemented by a non-null list at that level", ""),
  "C25-r2m1": ("C25", "fragment memo stores the absolute depth of the first spread", "fragment spread twice, the first spread below a list field", ""),
- "C25-r2m2": ("C25", "depth reached inside an inline fragment is not folded into max_depth", "named fragment whose list fields sit inside an inline fragment, spread twice", ""),
+ "C25-r2m2": ("C25", "depth reached inside an inline fragment is not folded into max_depth", "named fragment whose list fields sit inside an inline fragment, spread twice", "quick tier gains sub-space one-fragment-c (main and fragment body both two levels deep)"),
  "C27-r2m1": ("C27", "list items pulled with ready_chunks(16), index derived from the chunk number", "async list stream pending between two items at a position that is not a multiple of 16, plus a field error at a later item (wrong errors[].path)", ""),
  "C27-r2m2": ("C27", "Normal mode: completing item i is joined with fetching item i+1", "list of objects, a resolver inside a non-last item pending once, an observable lazy item producer", "C27 compares the order of calls and list-item production with the synchronous run and explores over-bound requests by deviation bound"),
  "C28-r2m1": ("C28", "single value for a nested list type wrapped only once", "`[[Int]]` given `1`", ""),
